@@ -16,8 +16,9 @@ open Registry
 
 /-! ## the sub-class: imports in class bodies -/
 
-theorem classImports_here {m : Nat} {cp : List Name} (hcp : cp ≠ []) : ∀ {body : List Stmt} {st : Stmt} {x : Name},
-    st ∈ body → st.defName = none → x ∈ explicitNames st → ((m, cp), x) ∈ classImports m cp body
+theorem classImports_here {proj : Project} {m : Nat} {cp : List Name} (hcp : cp ≠ []) :
+    ∀ {body : List Stmt} {st : Stmt} {x : Name},
+    st ∈ body → st.defName = none → x ∈ explicitNames st → ((m, cp), x, impKey proj m st) ∈ classImports proj m cp body
   | [], _, _, h, _, _ => by cases h
   | s0 :: rest, st, x, h, hd, hx => by
     simp only [classImports, List.mem_append]
@@ -27,9 +28,9 @@ theorem classImports_here {m : Nat} {cp : List Name} (hcp : cp ≠ []) : ∀ {bo
       cases st <;> simp_all [Stmt.defName, classImportsStmt]
     · right; exact classImports_here hcp h' hd hx
 
-theorem classImports_class {m : Nat} {pre : List Name} {c : Name} {bs : List Path} {b1 : List Stmt} :
-    ∀ {body : List Stmt}, Stmt.classDef c bs b1 ∈ body → ∀ {e}, e ∈ classImports m (pre ++ [c]) b1 →
-      e ∈ classImports m pre body
+theorem classImports_class {proj : Project} {m : Nat} {pre : List Name} {c : Name} {bs : List Path} {b1 : List Stmt} :
+    ∀ {body : List Stmt}, Stmt.classDef c bs b1 ∈ body → ∀ {e}, e ∈ classImports proj m (pre ++ [c]) b1 →
+      e ∈ classImports proj m pre body
   | [], h, _, _ => by cases h
   | x :: xs, h, e, he => by
     simp only [classImports, List.mem_append]
@@ -37,9 +38,9 @@ theorem classImports_class {m : Nat} {pre : List Name} {c : Name} {bs : List Pat
     · left; simp only [classImportsStmt]; exact he
     · right; exact classImports_class h' he
 
-theorem classImports_mem {m : Nat} : ∀ {cs pre : List Name} {body b : List Stmt} {st : Stmt} {x : Name},
+theorem classImports_mem {proj : Project} {m : Nat} : ∀ {cs pre : List Name} {body b : List Stmt} {st : Stmt} {x : Name},
     bodyAt body cs = some b → st ∈ b → st.defName = none → x ∈ explicitNames st → pre ++ cs ≠ [] →
-      ((m, pre ++ cs), x) ∈ classImports m pre body
+      ((m, pre ++ cs), x, impKey proj m st) ∈ classImports proj m pre body
   | [], pre, body, b, st, x, hb, hst, hd, hx, hne => by
     simp only [bodyAt, Option.some.injEq] at hb; subst hb
     simp only [List.append_nil] at hne ⊢
@@ -51,60 +52,59 @@ theorem classImports_mem {m : Nat} : ∀ {cs pre : List Name} {body b : List Stm
     | some b1 =>
       simp only [hf] at hb
       obtain ⟨bs, hm⟩ := findClass_mem hf
-      have := classImports_mem (m := m) (pre := pre ++ [c]) hb hst hd hx (by simp)
+      have := classImports_mem (proj := proj) (m := m) (pre := pre ++ [c]) hb hst hd hx (by simp)
       have e : pre ++ [c] ++ cs = pre ++ c :: cs := by simp
       rw [e] at this
       exact classImports_class hm this
 
 theorem classImportList_mem {proj : Project} {S : Site} {b : List Stmt} (hb : siteBody proj S = some b) (hS : S.2 ≠ [])
     {st : Stmt} {x : Name} (hst : st ∈ b) (hd : st.defName = none) (hx : x ∈ explicitNames st) :
-    (S, x) ∈ classImportList proj := by
+    (S, x, impKey proj S.1 st) ∈ classImportList proj := by
   obtain ⟨m, cp⟩ := S
   unfold classImportList
   rw [List.mem_flatMap]
   refine ⟨m, List.mem_range.2 (siteBody_lt hb), ?_⟩
-  have := classImports_mem (m := m) (pre := []) (siteBody_bodyAt hb) hst hd hx (by simpa using hS)
+  have := classImports_mem (proj := proj) (m := m) (pre := []) (siteBody_bodyAt hb) hst hd hx (by simpa using hS)
   simpa using this
 
 /-- what `classImportsUnique` says -/
 structure CIU (proj : Project) : Prop where
-  fresh : ∀ S x, (S, x) ∈ classImportList proj → isRootName proj x = true ∨
-    ∀ E ∈ entities proj, (sitePath proj E).getLast? ≠ some x
-  one : ∀ S S' x, (S, x) ∈ classImportList proj → (S', x) ∈ classImportList proj → S = S'
+  fresh : ∀ S x k, (S, x, k) ∈ classImportList proj →
+    ∀ E ∈ entities proj, 2 ≤ E.2.length → (sitePath proj E).getLast? ≠ some x
+  one : ∀ S S' x k k', (S, x, k) ∈ classImportList proj → (S', x, k') ∈ classImportList proj → S = S' ∨ k = k'
 
 theorem CIU.of {proj : Project} (h : classImportsUnique proj = true) : CIU proj := by
   unfold classImportsUnique at h
   simp only [List.all_eq_true, Bool.and_eq_true, Bool.or_eq_true, Bool.not_eq_true', bne_iff_ne, ne_eq,
     beq_iff_eq, Prod.forall] at h
   constructor
-  · intro S x hm
+  · intro S x k hm E hE h2 heq
     obtain ⟨m, cp⟩ := S
-    rcases (h m cp x hm).1 with hr | hn
-    · exact Or.inl hr
-    · right
-      intro E hE heq
-      have : (List.map (fun S => (sitePath proj S).getLast?) (entities proj)).contains (some x) = true := by
-        rw [List.contains_iff_mem]
-        exact List.mem_map.2 ⟨E, hE, heq⟩
-      rw [this] at hn; cases hn
-  · intro S S' x hm hm'
+    have hn := (h m cp x k hm).1
+    have : (List.map (fun S => (sitePath proj S).getLast?)
+        (List.filter (fun S => decide (2 ≤ S.2.length)) (entities proj))).contains (some x) = true := by
+      rw [List.contains_iff_mem]
+      exact List.mem_map.2 ⟨E, List.mem_filter.2 ⟨hE, by simpa using h2⟩, heq⟩
+    rw [this] at hn; cases hn
+  · intro S S' x k k' hm hm'
     obtain ⟨m, cp⟩ := S
     obtain ⟨m', cp'⟩ := S'
-    rcases (h m cp x hm).2 m' cp' x hm' with hne | heq
+    rcases (h m cp x k hm).2 m' cp' x k' hm' with (hne | heq) | heq
     · exact absurd rfl hne
-    · exact heq
+    · exact Or.inl heq
+    · exact Or.inr heq
 
 /-! ## bindings in class bodies -/
 
 /-- a class-level binding is a definition of the class or an import in its body -/
 theorem jpy_class_inv {proj : Project} {rank : List Nat} (wf : WFacts proj rank) {A : Site} (hA : A.2 ≠ []) {y : Name}
     {w : SVal} (h : Jpy proj A [y] w) :
-    ∃ b st, siteBody proj A = some b ∧ st ∈ b ∧ y ∈ explicitNames st ∧
+    ∃ b st, siteBody proj A = some b ∧ st ∈ b ∧ y ∈ explicitNames st ∧ StmtJ proj A st y w ∧
       ((st.defName = some y ∧ w = .dfn A.1 (A.2 ++ [y])) ∨ st.defName = none) := by
   rcases jpy_inv wf h with ⟨h0, _⟩ | ⟨b, st, hb, hst, hxs, hJ⟩
   · exact absurd h0 hA
   · have hex : y ∈ explicitNames st := explicit_of_stmtNames (fun lvl M hst' => hA (wf.nostar hb (hst' ▸ hst))) hxs
-    refine ⟨b, st, hb, hst, hex, ?_⟩
+    refine ⟨b, st, hb, hst, hex, hJ, ?_⟩
     cases st <;> simp_all [Stmt.defName, StmtJ, explicitNames]
 
 theorem def_static {proj : Project} {A : Site} {b : List Stmt} {st : Stmt} {y : Name} (hb : siteBody proj A = some b)
@@ -114,63 +114,97 @@ theorem def_static {proj : Project} {A : Site} {b : List Stmt} {st : Stmt} {y : 
 theorem def_last (proj : Project) (A : Site) (y : Name) : (sitePath proj (A.1, A.2 ++ [y])).getLast? = some y := by
   simp [sitePath, ← List.append_assoc]
 
-theorem root_static {proj : Project} {y : Name} (hr : isRootName proj y = true) :
-    ∃ root, StaticSite proj (root, []) ∧ sitePath proj (root, []) = [y] := by
-  unfold isRootName at hr
-  cases hm : modIdx proj [y] with
-  | none => simp [hm] at hr
-  | some root =>
-    obtain ⟨hlt, hp⟩ := modIdx_spec hm
-    exact ⟨root, ⟨hlt, Or.inl rfl⟩, by simp [sitePath, hp]⟩
-
-/-- a name that a class body binds by an import is not the name of a definition -/
-theorem def_import_absurd {proj : Project} {rank : List Nat} (wf : WFacts proj rank) (ciu : CIU proj) {S : Site}
+/-- a name that a class body binds by an import is not the name of a definition made in a class body -/
+theorem def_import_absurd {proj : Project} (ciu : CIU proj) {S : Site} (hS : S.2 ≠ [])
     {b : List Stmt} {st : Stmt} {y : Name} (hb : siteBody proj S = some b) (hst : st ∈ b) (hd : st.defName = some y)
-    {A : Site} (hm : (A, y) ∈ classImportList proj) : False := by
+    {A : Site} {k : ImpKey} (hm : (A, y, k) ∈ classImportList proj) : False := by
   have hE := def_static hb hst hd
-  rcases ciu.fresh A y hm with hr | hn
-  · obtain ⟨root, hrs, hrp⟩ := root_static hr
-    have := site_unique_last wf hE hrs (by rw [def_last, hrp]; rfl)
-    injection this with _ h2
-    simp at h2
-  · exact hn _ (static_mem_entities hE) (def_last proj S y)
+  refine ciu.fresh A y k hm _ (static_mem_entities hE) ?_ (def_last proj S y)
+  have : 1 ≤ S.2.length := by
+    cases h : S.2 with
+    | nil => exact absurd h hS
+    | cons a as => simp
+  simp only [List.length_append, List.length_singleton]
+  omega
+
+/-- two import statements in class bodies that bind `y` to the same thing: what the one gives, the
+other gives too -/
+theorem jpy_same_key {proj : Project} {S A : Site} {b1 : List Stmt} {st1 st2 : Stmt} {y : Name}
+    (hb1 : siteBody proj S = some b1) (hst1 : st1 ∈ b1) (hx1 : y ∈ explicitNames st1) (hd1 : st1.defName = none)
+    (hx2 : y ∈ explicitNames st2) (hd2 : st2.defName = none)
+    (hk : impKey proj S.1 st1 = impKey proj A.1 st2) {w : SVal} (hJ : StmtJ proj A st2 y w) : Jpy proj S [y] w := by
+  cases st2 with
+  | importMod t2 a2 =>
+    cases a2 with
+    | none =>
+      obtain ⟨r, top, ht, hm, hw⟩ := hJ
+      subst ht; subst hw
+      cases st1 with
+      | importMod t1 a1 =>
+        cases a1 with
+        | none =>
+          cases t1 with
+          | nil => simp [explicitNames] at hx1
+          | cons h1 r1 =>
+            simp only [explicitNames, List.mem_singleton] at hx1; subst hx1
+            exact Jpy.importTop hb1 hst1 hm
+        | some a1 => simp [impKey] at hk
+      | importFrom lvl M n a => simp [impKey] at hk
+      | _ => simp [Stmt.defName, explicitNames] at hd1 hx1
+    | some a2 =>
+      obtain ⟨hya, h, r, top, ht, hm, hv⟩ := hJ
+      subst hya; subst ht
+      cases st1 with
+      | importMod t1 a1 =>
+        cases a1 with
+        | none => cases t1 <;> simp [impKey] at hk
+        | some a1 =>
+          simp only [impKey, ImpKey.path.injEq] at hk; subst hk
+          simp only [explicitNames, List.mem_singleton] at hx1; subst hx1
+          rcases hv with ⟨hr, hw⟩ | ⟨y', ys, hr, hj⟩
+          · subst hr; subst hw; exact Jpy.importAs1 hb1 hst1 hm
+          · subst hr; exact Jpy.importAs hb1 hst1 hm hj
+      | importFrom lvl M n a => simp [impKey] at hk
+      | _ => simp [Stmt.defName, explicitNames] at hd1 hx1
+  | importFrom lvl2 M2 n2 a2 =>
+    obtain ⟨hya, t, ht, hj⟩ := hJ
+    cases st1 with
+    | importMod t1 a1 => cases a1 <;> cases t1 <;> simp [impKey] at hk
+    | importFrom lvl M n a =>
+      simp only [impKey, ImpKey.frm.injEq] at hk
+      obtain ⟨hk1, hk2⟩ := hk
+      subst hk2
+      simp only [explicitNames, List.mem_singleton] at hx1
+      rw [hx1]
+      exact Jpy.from hb1 hst1 (by rw [hk1]; exact ht) hj
+    | _ => simp [Stmt.defName, explicitNames] at hd1 hx1
+  | _ => simp [Stmt.defName, explicitNames] at hd2 hx2
 
 /-- with `classImportsUnique`, the class-level bindings of a name all over the project agree -/
 theorem class_bind_same {proj : Project} {rank : List Nat} (wf : WFacts proj rank) (ciu : CIU proj) {S A : Site}
     (hS : S.2 ≠ []) (hA : A.2 ≠ []) {y : Name} {v w : SVal} (h1 : Jpy proj S [y] v) (h2 : Jpy proj A [y] w) : v = w := by
-  obtain ⟨b1, st1, hb1, hst1, hx1, hc1⟩ := jpy_class_inv wf hS h1
-  obtain ⟨b2, st2, hb2, hst2, hx2, hc2⟩ := jpy_class_inv wf hA h2
+  obtain ⟨b1, st1, hb1, hst1, hx1, _, hc1⟩ := jpy_class_inv wf hS h1
+  obtain ⟨b2, st2, hb2, hst2, hx2, hJ2, hc2⟩ := jpy_class_inv wf hA h2
   rcases hc1 with ⟨hd1, hv⟩ | hd1 <;> rcases hc2 with ⟨hd2, hw⟩ | hd2
   · have := site_unique_last wf (def_static hb1 hst1 hd1) (def_static hb2 hst2 hd2) (by rw [def_last, def_last])
     injection this with e1 e2
     rw [hv, hw, e1, e2]
-  · exact (def_import_absurd wf ciu hb1 hst1 hd1 (classImportList_mem hb2 hA hst2 hd2 hx2)).elim
-  · exact (def_import_absurd wf ciu hb2 hst2 hd2 (classImportList_mem hb1 hS hst1 hd1 hx1)).elim
-  · have := ciu.one S A y (classImportList_mem hb1 hS hst1 hd1 hx1) (classImportList_mem hb2 hA hst2 hd2 hx2)
-    subst this
-    exact jpy_fun wf h1 h2
+  · exact (def_import_absurd ciu hS hb1 hst1 hd1 (classImportList_mem hb2 hA hst2 hd2 hx2)).elim
+  · exact (def_import_absurd ciu hA hb2 hst2 hd2 (classImportList_mem hb1 hS hst1 hd1 hx1)).elim
+  · rcases ciu.one S A y _ _ (classImportList_mem hb1 hS hst1 hd1 hx1) (classImportList_mem hb2 hA hst2 hd2 hx2) with h | h
+    · subst h; exact jpy_fun wf h1 h2
+    · exact jpy_fun wf h1 (jpy_same_key hb1 hst1 hx1 hd1 hx2 hd2 h hJ2)
 
-/-- an entity called `y` that is registered below another object, and a class-level binding of `y`:
-the binding is that entity -/
+/-- an entity called `y` defined in a class body, and a class-level binding of `y`: the binding is that entity -/
 theorem entity_is_binding {proj : Project} {rank : List Nat} (wf : WFacts proj rank) (ciu : CIU proj) {Sc : Site}
-    (hSc : StaticSite proj Sc) {q : Path} (hq : q ≠ []) {y : Name} (hp : sitePath proj Sc = q ++ [y])
+    (hSc : StaticSite proj Sc) (h2 : 2 ≤ Sc.2.length) {y : Name} (hlast : (sitePath proj Sc).getLast? = some y)
     {A : Site} (hA : A.2 ≠ []) {w : SVal} (hj : Jpy proj A [y] w) : w = svalOf Sc := by
-  have hlast : (sitePath proj Sc).getLast? = some y := by rw [hp]; simp
-  obtain ⟨b, st, hb, hst, hx, hc⟩ := jpy_class_inv wf hA hj
+  obtain ⟨b, st, hb, hst, hx, _, hc⟩ := jpy_class_inv wf hA hj
   rcases hc with ⟨hd, hw⟩ | hd
   · have := site_unique_last wf hSc (def_static hb hst hd) (by rw [hlast, def_last])
     subst this
     rw [hw]; simp [svalOf]
-  · exfalso
-    rcases ciu.fresh A y (classImportList_mem hb hA hst hd hx) with hr | hn
-    · obtain ⟨root, hrs, hrp⟩ := root_static hr
-      have := site_unique_last wf hSc hrs (by rw [hlast, hrp]; rfl)
-      subst this
-      rw [hrp] at hp
-      have hl := congrArg List.length hp
-      simp only [List.length_append, List.length_singleton, List.length_cons, List.length_nil] at hl
-      exact hq (List.eq_nil_of_length_eq_zero (by omega))
-    · exact hn _ (static_mem_entities hSc) hlast
+  · exact (ciu.fresh A y _ (classImportList_mem hb hA hst hd hx) _ (static_mem_entities hSc) h2 hlast).elim
 
 /-! ## attribute access with inheritance -/
 
@@ -572,5 +606,451 @@ theorem mro_member_class {proj : Project} {s : St} (hI : PdInv proj s) {i b : Na
     rcases hor with h | ⟨d, hd'⟩
     · exact Or.inl h
     · exact Or.inr (finalBases_class hI hd')
+
+end Imports
+
+/-! ## pydoctor: `expandName` / `resolveName` with the inherited-member step -/
+
+namespace Imports
+open Registry
+
+theorem classSite_kind {proj : Project} {rank : List Nat} (wf : WFacts proj rank) {S : Site} {c : Cls}
+    (hk : ObjKind proj S c) (hc : IsClassSite proj S) : c = .cls := by
+  obtain ⟨cp', n', bs, body, full, h2, hfull, hm⟩ := hc
+  cases hk with
+  | mod hm' => simp at h2
+  | @dfn m cp b0 st n c hb0 hst hkind =>
+    simp only at h2 hfull
+    obtain ⟨e1, e2⟩ := List.append_inj' h2 rfl
+    simp only [List.cons.injEq, and_true] at e2
+    subst e1; subst e2
+    rw [hb0] at hfull; injection hfull with hfull; subst hfull
+    have := same_stmt wf hb0 hst hm (x := n) (stmtNames_of_explicit (defName_explicit (stKind_defName hkind)))
+      (stmtNames_of_explicit (by simp [explicitNames]))
+    subst this
+    simp only [stKind, Option.some.injEq, Prod.mk.injEq] at hkind
+    exact hkind.2.symm
+
+theorem no_step_nonclass {proj : Project} {rank : List Nat} (wf : WFacts proj rank) {S : Site} {c : Cls}
+    (hk : ObjKind proj S c) (hc : canContainImports c = false) {f : Bool} {y : Name} {w : SVal} : ¬ Step proj f S y w := by
+  rintro (h | ⟨_, hS, _⟩)
+  · exact no_jpy_nonclass wf hk hc h
+  · rw [classSite_kind wf hk hS] at hc; simp [canContainImports] at hc
+
+/-- the child of a class object is a definition made in a class body -/
+theorem class_child_depth {proj : Project} {rank : List Nat} (wf : WFacts proj rank) {Sb Sc : Site} {c : Cls}
+    (hSb : StaticSite proj Sb) (hSb2 : Sb.2 ≠ []) (hkc : ObjKind proj Sc c) {y : Name}
+    (hp : sitePath proj Sc = sitePath proj Sb ++ [y]) : 2 ≤ Sc.2.length := by
+  cases hkc with
+  | @mod m' hm' =>
+    exfalso
+    simp only [sitePath, List.append_nil] at hp
+    obtain ⟨hne, hpar⟩ := wf.parentOk m' hm'
+    have hlen : 2 ≤ (pathOf proj m').length := by
+      have h1 : 1 ≤ (pathOf proj Sb.1).length := by
+        have := (wf.parentOk Sb.1 hSb.1).1
+        cases h : pathOf proj Sb.1 with
+        | nil => exact absurd h this
+        | cons a as => simp
+      rw [hp]; simp only [List.length_append, List.length_singleton]; omega
+    obtain ⟨q, hq, _, _⟩ := hpar hlen
+    obtain ⟨hqn, hqp⟩ := modIdx_spec hq
+    have hdl : (pathOf proj m').dropLast = pathOf proj Sb.1 ++ Sb.2 := by
+      rw [hp]; simp
+    have := site_unique wf (⟨hqn, Or.inl rfl⟩ : StaticSite proj (q, [])) hSb
+      (by simp only [sitePath, List.append_nil]; rw [hqp, hdl])
+    rw [← this] at hSb2; exact hSb2 rfl
+  | @dfn m cp b0 st n c hb0 hst hkind =>
+    cases cp with
+    | nil =>
+      exfalso
+      simp only [sitePath, List.nil_append] at hp
+      obtain ⟨e1, _⟩ := List.append_inj' hp rfl
+      have := site_unique wf (⟨(siteBody_lt hb0 : m < proj.length), Or.inl rfl⟩ : StaticSite proj (m, [])) hSb
+        (by simp only [sitePath, List.append_nil]; exact e1)
+      rw [← this] at hSb2; exact hSb2 rfl
+    | cons a as => simp
+
+/-- an entry of `contents` called `y` of a class object, and a class-level binding of `y` somewhere: the
+qualified name of the entry denotes the binding -/
+theorem content_den {proj : Project} {rank : List Nat} (wf : WFacts proj rank) (ciu : CIU proj) {s : St}
+    (hI : PdInv proj s) {b : Nat} {bo : Obj} (hbo : s.reg.objs[b]? = some bo) (hbcls : bo.cls = .cls) {y : Name} {c : Nat}
+    (hd : dget bo.contents y = some c) {A : Site} (hA : A.2 ≠ []) {w : SVal} (hj : Jpy proj A [y] w) :
+    ∃ kb, path s.reg b = some kb ∧ path s.reg c = some (kb ++ [y]) ∧ AbsDen proj (kb ++ [y]) w := by
+  have hbl := (List.getElem?_eq_some_iff.1 hbo).1
+  obtain ⟨kb, hkb⟩ := hI.reg.full b hbl
+  have hpb := hI.reg.reg.keys kb b hkb
+  have hpc := path_child hI.reg hbo hd hpb
+  obtain ⟨oc, hoc⟩ : ∃ oc, s.reg.objs[c]? = some oc := ⟨s.reg.objs[c]'(path_lt hpc), by simp [path_lt hpc]⟩
+  obtain ⟨Sc, hkc, hpsc⟩ := hI.site c oc hoc
+  rw [hpc] at hpsc; injection hpsc with hpsc
+  obtain ⟨Sb, hkb', hpsb⟩ := hI.site b bo hbo
+  rw [hpb] at hpsb; injection hpsb with hpsb
+  have hSb2 : Sb.2 ≠ [] := by
+    intro h0
+    have := hkb'.isMod.2 h0
+    rw [hbcls] at this; simp [isModuleCls] at this
+  have h2 := class_child_depth wf hkb'.static hSb2 hkc (y := y) (by rw [← hpsc, hpsb])
+  have := entity_is_binding wf ciu hkc.static h2 (by rw [← hpsc]; simp) hA hj
+  refine ⟨kb, hpb, hpc, ?_⟩
+  rw [this, hpsc]
+  exact canon_site wf hkc.static
+
+/-- an alias entry for `y` of a class object, and a class-level binding of `y` somewhere: the alias
+target denotes the binding -/
+theorem alias_den {proj : Project} {rank : List Nat} (wf : WFacts proj rank) (ciu : CIU proj) {s : St}
+    (hI : PdInv proj s) {b : Nat} {bo : Obj} (hbo : s.reg.objs[b]? = some bo) {Sb : Site}
+    (hp : path s.reg b = some (sitePath proj Sb)) (hSb : StaticSite proj Sb) (hcl : Sb.2 ≠ []) {y : Name} {tgt : Path}
+    (hda : dget bo.aliases y = some tgt) {A : Site} (hA : A.2 ≠ []) {w : SVal} (hj : Jpy proj A [y] w) :
+    AbsDenW proj tgt w := by
+  have hjd := hI.alias b bo Sb hbo hp hSb y tgt hda
+  obtain ⟨bb, st, hbb, hst, hxs, hD⟩ := jpd_inv wf hjd
+  have hex : y ∈ explicitNames st := explicit_of_stmtNames (fun lvl M hst' => hcl (wf.nostar hbb (hst' ▸ hst))) hxs
+  have hdn : st.defName = none := by cases st <;> simp_all [StmtD, Stmt.defName]
+  have hm := classImportList_mem hbb hcl hst hdn hex
+  obtain ⟨b2, st2, hb2, hst2, hx2, hJ2, hc2⟩ := jpy_class_inv wf hA hj
+  rcases hc2 with ⟨hd2, _⟩ | hd2
+  · exact (def_import_absurd ciu hA hb2 hst2 hd2 hm).elim
+  · rcases ciu.one Sb A y _ _ hm (classImportList_mem hb2 hA hst2 hd2 hx2) with h | h
+    · subst h; exact jpd_jpy wf hjd hj
+    · exact jpd_jpy wf hjd (jpy_same_key hbb hst hex hdn hx2 hd2 h hJ2)
+
+/-- the rest of the loop of `expandName` once a component has become the dotted name `fn` -/
+def contLoop (e : Names.Env) (fn : Path) (rest : List Name) : Option Path :=
+  match Names.objFor e fn with
+  | none => some (fn ++ rest)
+  | some nxt => match rest with
+    | [] => some fn
+    | _ :: _ => Names.expandLoop e nxt false rest
+
+theorem expandLoop_eq {e : Names.Env} {i : Nat} {first : Bool} {y : Name} {rest : List Name} {fn : Path}
+    (hc : Names.componentName e i first y = some fn) (hne : (decide (fn = [y]) && !first) = false) :
+    Names.expandLoop e i first (y :: rest) = contLoop e fn rest := expandLoop_found hc hne
+
+theorem expandLoop_inh {e : Names.Env} {i : Nat} {y : Name} {rest : List Name} {o : Obj} {q : Path}
+    (hc : Names.componentName e i false y = some [y]) (ho : getObj e.st i = some o) (hcls : o.cls = .cls)
+    (hq : Names.classLookup e i y = some q) (hne : q ≠ [y]) :
+    Names.expandLoop e i false (y :: rest) = contLoop e q rest := by
+  rw [Names.expandLoop]
+  unfold contLoop
+  simp only [hc, ho, hcls, hq, hne, decide_true, Bool.not_false, Bool.and_self, if_true, if_false]
+  cases Names.objFor e q <;> cases rest <;> rfl
+
+theorem expandLoop_inh_self {e : Names.Env} {i : Nat} {y : Name} {rest : List Name} {o : Obj} {op : Path}
+    (hc : Names.componentName e i false y = some [y]) (ho : getObj e.st i = some o) (hcls : o.cls = .cls)
+    (hq : Names.classLookup e i y = none ∨ Names.classLookup e i y = some [y]) (hp : path e.st i = some op) :
+    Names.expandLoop e i false (y :: rest) = some (op ++ [y] ++ rest) := by
+  rw [Names.expandLoop]
+  rcases hq with hq | hq <;> simp [hc, ho, hcls, hq, hp]
+
+/-- **expandName is sound, inherited members included**: on a finished well-behaved state of a
+`classImportsUnique` project, the dotted name that `expandName` returns for `ys` looked up in object
+`i` (scope `S`) denotes whatever Python gives for `ys` in `S`, the attribute steps through classes
+following the MRO on both sides. -/
+theorem expand_soundI {proj : Project} {rank : List Nat} (wf : WFacts proj rank) (ciu : CIU proj) {s : St}
+    (hI : PdInv proj s) (hn : NoProcessing s) (e : Names.Env) (he : e.st = s.reg)
+    (hmro : ∀ c, ∃ t, Names.mroOf e c = c :: t)
+    (hmem : ∀ i b, b ∈ Names.mroOf e i → b = i ∨ ∃ o : Obj, s.reg.objs[b]? = some o ∧ o.cls = .cls) :
+    ∀ (ys : List Name) (i : Nat) (first : Bool) (S : Site) (o : Obj) (v : SVal) (p : Path),
+      s.reg.objs[i]? = some o → path s.reg i = some (sitePath proj S) → ObjKind proj S o.cls →
+      JpyI proj first S ys v → Names.expandLoop e i first ys = some p → AbsDenIW proj p v
+  | [], _, _, _, _, _, _, _, _, _, hj, _ => by cases hj
+  | y :: rest, i, first, S, o, v, p, ho, hp, hk, hj, hx => by
+    obtain ⟨w, hw, hrest⟩ : ∃ w, Step proj first S y w ∧
+        ((rest = [] ∧ v = w) ∨ (∃ y2 r, rest = y2 :: r ∧ JpyI proj false (scopeOf w) (y2 :: r) v)) := by
+      cases rest with
+      | nil => exact ⟨v, hj.one_inv, Or.inl ⟨rfl, rfl⟩⟩
+      | cons y2 r =>
+        obtain ⟨w, h1, h2⟩ := hj.cons_inv
+        exact ⟨w, h1, Or.inr ⟨y2, r, rfl, h2⟩⟩
+    have hgo : getObj e.st i = some o := by rw [he]; exact ho
+    have hpe : path e.st i = some (sitePath proj S) := by rw [he]; exact hp
+    have hcanon := canon_site wf hk.static
+    have hSne : sitePath proj S ≠ [] := by
+      obtain ⟨r, rest', root, hpp, _⟩ := hcanon; rw [hpp]; simp
+    have hfullW : AbsDenIW proj (sitePath proj S ++ y :: rest) v :=
+      AbsDenIW.ext hcanon.weak.toI hSne (by rw [scopeOf_svalOf]; exact hj.weaken)
+    -- what happens once the component has been turned into the dotted name `fn`
+    have cont0 : ∀ fn : Path, AbsDenIW proj fn w → fn ≠ [] →
+        Names.expandLoop e i first (y :: rest) = contLoop e fn rest → AbsDenIW proj p v := by
+      intro fn hfw hfne heq
+      rw [heq] at hx
+      unfold contLoop at hx
+      cases hof : Names.objFor e fn with
+      | none =>
+        simp only [hof, Option.some.injEq] at hx; subst hx
+        rcases hrest with ⟨hr, hv⟩ | ⟨y2, r, hr, hjr⟩
+        · subst hr; subst hv; simpa using hfw
+        · subst hr; exact AbsDenIW.ext hfw hfne hjr
+      | some nxt =>
+        simp only [hof] at hx
+        have hreg : dget s.reg.all fn = some nxt := by
+          have := hof; unfold Names.objFor at this; rw [he] at this; exact this
+        have hpn : path s.reg nxt = some fn := hI.reg.reg.keys fn nxt (mem_of_dget hreg)
+        obtain ⟨on, hon⟩ : ∃ on, s.reg.objs[nxt]? = some on := by
+          have := path_lt hpn; exact ⟨s.reg.objs[nxt], by simp [this]⟩
+        obtain ⟨Sn, hkn, hpn'⟩ := hI.site nxt on hon
+        rw [hpn] at hpn'; injection hpn' with hpn'
+        have hcn' := canon_site wf hkn.static
+        rw [← hpn'] at hcn'
+        have hwv : svalOf Sn = w := AbsDenI.fun wf ciu hcn' hfw
+        rcases hrest with ⟨hr, hv⟩ | ⟨y2, r, hr, hjr⟩
+        · subst hr; subst hv
+          simp only [Option.some.injEq] at hx; subst hx; exact hfw
+        · subst hr
+          simp only at hx
+          rw [← hwv, scopeOf_svalOf] at hjr
+          exact expand_soundI wf ciu hI hn e he hmro hmem (y2 :: r) nxt false Sn on v p hon (by rw [hpn, hpn']) hkn hjr hx
+    have cont : ∀ fn : Path, AbsDenIW proj fn w → fn ≠ [] → (decide (fn = [y]) && !first) = false →
+        Names.componentName e i first y = some fn → AbsDenIW proj p v :=
+      fun fn hfw hfne hnb hcn => cont0 fn hfw hfne (expandLoop_eq hcn hnb)
+    by_cases hcan : canContainImports o.cls = true
+    · cases hdc : dget o.contents y with
+      | some c =>
+        -- an entry of `contents`: the qualified name of the child
+        have hcn : Names.componentName e i first y = some (sitePath proj S ++ [y]) := by
+          rw [Names.componentName_contents first hgo hdc]
+          unfold Names.fuelOf
+          rw [Names.localName_contents _ hgo hcan hdc, he]
+          exact path_child hI.reg ho hdc hp
+        have hden : AbsDenIW proj (sitePath proj S ++ [y]) w := by
+          rcases hw with hw | ⟨_, hS2, A, hA, hjA⟩
+          · exact (AbsDen.ext hcanon (by rw [scopeOf_svalOf]; exact hw)).weak.toI
+          · obtain ⟨kb, hpb, _, hden⟩ := content_den wf ciu hI ho (classSite_kind wf hk hS2) hdc hA hjA
+            rw [hp] at hpb; injection hpb with hpb; subst hpb
+            exact hden.weak.toI
+        refine cont _ hden (by simp) ?_ hcn
+        have : sitePath proj S ++ [y] ≠ [y] := by
+          intro h
+          have := congrArg List.length h
+          simp at this
+          exact hSne this
+        simp [this]
+      | none =>
+        cases hda : dget o.aliases y with
+        | some tgt =>
+          have hjd : Jpd proj S y tgt := hI.alias i o S ho hp hk.static y tgt hda
+          have hcn : Names.componentName e i first y = some tgt := by
+            rw [Names.componentName_alias first hgo hda]
+            unfold Names.fuelOf
+            exact Names.localName_alias _ hgo hcan hdc hda
+          have hden : AbsDenIW proj tgt w := by
+            rcases hw with hw | ⟨_, hS2, A, hA, hjA⟩
+            · exact (jpd_jpy wf hjd hw).toI
+            · exact (alias_den wf ciu hI ho hp hk.static hS2.ne hda hA hjA).toI
+          by_cases hnb : (decide (tgt = [y]) && !first) = false
+          · exact cont tgt hden (jpd_ne_nil wf hjd) hnb hcn
+          · -- the alias maps the name to itself and we are not at the first component: "not found"
+            have hnb' : tgt = [y] ∧ first = false := by
+              cases first <;> simp_all
+            obtain ⟨ht, hf⟩ := hnb'
+            subst hf
+            rw [ht] at hcn
+            by_cases hcl : o.cls = .cls
+            · -- a class: the inherited-member step starts with the class itself, whose alias says `[y]` again
+              have hcl' : Names.classLookup e i y = some [y] := by
+                unfold Names.classLookup
+                obtain ⟨t, ht'⟩ := hmro i
+                rw [ht']
+                simp [List.findSome?, hgo, hdc, hda, ht]
+              rw [expandLoop_inh_self hcn hgo hcl (Or.inr hcl') hpe] at hx
+              simp only [Option.some.injEq] at hx; subst hx
+              simpa using hfullW
+            · rw [expandLoop_notfound hcn hgo hcl hpe] at hx
+              simp only [Option.some.injEq] at hx; subst hx
+              simpa using hfullW
+        | none =>
+          -- neither defined nor imported here: the scope itself does not bind the name …
+          have noplain : o.cls = .cls → Jpy proj S [y] w → False := by
+            intro hcl hw
+            have hS2 : S.2 ≠ [] := by
+              intro h0
+              have := hk.isMod.2 h0
+              rw [hcl] at this; simp [isModuleCls] at this
+            rcases jpy_inv wf hw with ⟨h0, _⟩ | ⟨b, st, hb, hst, hxs, _⟩
+            · exact hS2 h0
+            · have hcomp := class_complete hI hn hp hk.static hS2 hb
+              have hex : y ∈ explicitNames st :=
+                explicit_of_stmtNames (fun lvl M hst' => hS2 (wf.nostar hb (hst' ▸ hst))) hxs
+              obtain ⟨o', ho', hent⟩ := complete_entry (hcomp.mem hst) hex
+              rw [ho] at ho'; injection ho' with ho'; subst ho'
+              rcases hent with h | h
+              · exact h hdc
+              · exact h hda
+          by_cases hcl : o.cls = .cls
+          · -- … so, in a class, the step is an inherited one
+            obtain ⟨hf, A, hA, hjA⟩ : first = false ∧ ∃ A : Site, A.2 ≠ [] ∧ Jpy proj A [y] w := by
+              rcases hw with hw | ⟨hf, _, A, hA, hjA⟩
+              · exact (noplain hcl hw).elim
+              · exact ⟨hf, A, hA, hjA⟩
+            subst hf
+            have hcn : Names.componentName e i false y = some [y] := by
+              unfold Names.componentName
+              simp [hgo, hcl, hdc, hda]
+            cases hq : Names.classLookup e i y with
+            | none =>
+              rw [expandLoop_inh_self hcn hgo hcl (Or.inl hq) hpe] at hx
+              simp only [Option.some.injEq] at hx; subst hx
+              simpa using hfullW
+            | some q =>
+              by_cases hqy : q = [y]
+              · rw [expandLoop_inh_self hcn hgo hcl (Or.inr (by rw [hq, hqy])) hpe] at hx
+                simp only [Option.some.injEq] at hx; subst hx
+                simpa using hfullW
+              · -- found in a class of the linearisation
+                have hden : AbsDenIW proj q w ∧ q ≠ [] := by
+                  have hq' := hq
+                  unfold Names.classLookup at hq'
+                  obtain ⟨b, hbm, hb⟩ := List.exists_of_findSome?_eq_some hq'
+                  cases hgb : getObj e.st b with
+                  | none => simp [hgb] at hb
+                  | some bo =>
+                    simp only [hgb] at hb
+                    have hbo : s.reg.objs[b]? = some bo := by rw [← he]; exact hgb
+                    have hbcls : bo.cls = .cls := by
+                      rcases hmem i b hbm with hbi | ⟨o', ho', hc'⟩
+                      · subst hbi; rw [ho] at hbo; injection hbo with hbo; subst hbo; exact hcl
+                      · rw [hbo] at ho'; injection ho' with ho'; subst ho'; exact hc'
+                    cases hbc : dget bo.contents y with
+                    | some c =>
+                      simp only [hbc, Option.some.injEq] at hb
+                      obtain ⟨kb, _, hpc, hden⟩ := content_den wf ciu hI hbo hbcls hbc hA hjA
+                      rw [he, hpc] at hb
+                      simp only [Option.getD_some] at hb
+                      subst hb
+                      exact ⟨hden.weak.toI, by simp⟩
+                    | none =>
+                      simp only [hbc] at hb
+                      obtain ⟨Sb, hkb, hpsb⟩ := hI.site b bo hbo
+                      have hSb2 : Sb.2 ≠ [] := by
+                        intro h0
+                        have := hkb.isMod.2 h0
+                        rw [hbcls] at this; simp [isModuleCls] at this
+                      have hjd := hI.alias b bo Sb hbo hpsb hkb.static y q hb
+                      exact ⟨(alias_den wf ciu hI hbo hpsb hkb.static hSb2 hb hA hjA).toI, jpd_ne_nil wf hjd⟩
+                exact cont0 q hden.1 hden.2 (expandLoop_inh hcn hgo hcl hq hqy)
+          · have hmo : isModuleCls o.cls = true := by
+              cases hc : o.cls <;> simp_all [canContainImports, isModuleCls]
+            have hw' : Jpy proj S [y] w := by
+              rcases hw with hw | ⟨_, hS2, _⟩
+              · exact hw
+              · exact absurd (hk.isMod.1 hmo) hS2.ne
+            have hcn : Names.componentName e i first y = some [y] := by
+              unfold Names.componentName
+              simp only [hgo, hcl, decide_false, Bool.and_false, Bool.false_and, Bool.false_eq_true, if_false]
+              rw [localName_module hgo hmo]; simp [hdc, hda]
+            cases first with
+            | true =>
+              -- a bare name at the first position: a root module of that name, if there is one
+              refine cont [y] ?_ (by simp) (by simp) hcn
+              intro r rest' root hpr hroot
+              injection hpr with e1 e2; subst e1; subst e2
+              exact Or.inl ⟨rfl, jpy_root wf hw' y root rfl hroot⟩
+            | false =>
+              rw [expandLoop_notfound hcn hgo hcl hpe] at hx
+              simp only [Option.some.injEq] at hx; subst hx
+              simpa using hfullW
+    · exact absurd hw (no_step_nonclass wf hk (by simpa using hcan))
+
+end Imports
+
+namespace Imports
+open Registry
+
+/-- a registered name that denotes `v` (inherited steps allowed) is the name of the object standing for `v` -/
+theorem registered_identI {proj : Project} {rank : List Nat} (wf : WFacts proj rank) (ciu : CIU proj) {s : St}
+    (hI : PdInv proj s) {p : Path} {v : SVal} {j : Nat} (hden : AbsDenIW proj p v) (hreg : dget s.reg.all p = some j) :
+    identOf s.reg j = some (identSV proj v) := by
+  have hpj : path s.reg j = some p := hI.reg.reg.keys p j (mem_of_dget hreg)
+  obtain ⟨oj, hoj⟩ : ∃ oj, s.reg.objs[j]? = some oj := ⟨s.reg.objs[j]'(path_lt hpj), by simp [path_lt hpj]⟩
+  obtain ⟨Sj, hkj, hpj'⟩ := hI.site j oj hoj
+  rw [hpj] at hpj'; injection hpj' with hpj'
+  have hc := canon_site wf hkj.static
+  rw [← hpj'] at hc
+  have := AbsDenI.fun wf ciu hc hden
+  rw [← this]
+  exact hkj.ident hoj (by rw [hpj, hpj'])
+
+/-- **resolveName is sound on a finished well-behaved state, inherited members included** -/
+theorem resolve_sound_stateI {proj : Project} {rank : List Nat} (wf : WFacts proj rank) (ciu : CIU proj) {s : St}
+    (hI : PdInv proj s) (hn : NoProcessing s) {i : Nat} {o : Obj} {S : Site} (ho : s.reg.objs[i]? = some o)
+    (hp : path s.reg i = some (sitePath proj S)) (hk : ObjKind proj S o.cls) {name : Path} {v : SVal} {j : Nat}
+    (hj : JpyI proj true S name v) (hr : Names.resolveName (finalEnv s) i name = some j) :
+    identOf s.reg j = some (identSV proj v) := by
+  have hmro := mroOf_final_head s
+  have hmem : ∀ i b, b ∈ Names.mroOf (finalEnv s) i → b = i ∨ ∃ o : Obj, s.reg.objs[b]? = some o ∧ o.cls = .cls :=
+    fun i b hb => mro_member_class hI hb
+  unfold Names.resolveName at hr
+  cases hx : Names.expandName (finalEnv s) i name with
+  | none => simp [hx] at hr
+  | some p =>
+    simp only [hx] at hr
+    have hden := expand_soundI wf ciu hI hn (finalEnv s) rfl hmro hmem name i true S o v p ho hp hk hj hx
+    cases hof : Names.objFor (finalEnv s) p with
+    | some j' =>
+      simp only [hof, Option.some.injEq] at hr; subst hr
+      exact registered_identI wf ciu hI hden hof
+    | none =>
+      simp only [hof] at hr
+      cases hfo : Names.findObject (finalEnv s) p with
+      | obj j' =>
+        simp only [hfo, Option.some.injEq] at hr; subst hr
+        unfold Names.findObject at hfo
+        simp only [hof] at hfo
+        cases p with
+        | nil => simp at hfo
+        | cons r rest =>
+          simp only at hfo
+          split at hfo
+          · cases hfo
+          · rename_i ro hfind
+            by_cases hrest : rest = []
+            · simp [hrest] at hfo
+            · simp only [hrest, if_false] at hfo
+              cases hx2 : Names.expandName (finalEnv s) ro rest with
+              | none => simp [hx2] at hfo
+              | some p2 =>
+                simp only [hx2] at hfo
+                cases hof2 : Names.objFor (finalEnv s) p2 with
+                | none => simp [hof2] at hfo
+                | some j2 =>
+                  simp only [hof2, Names.Found.obj.injEq] at hfo; subst hfo
+                  -- the root object found by name
+                  have hmem' := List.mem_of_find?_eq_some hfind
+                  have hpred := List.find?_some hfind
+                  obtain ⟨oo, hoo, hpar⟩ := hI.reg.tree.rootsOk ro hmem'
+                  have hgo : getObj (finalEnv s).st ro = some oo := hoo
+                  simp only [hgo, decide_eq_true_eq] at hpred
+                  have hpro : path s.reg ro = some [r] := by
+                    rw [← hpred]; simp only [path]; exact pathAux_root hoo hpar
+                  obtain ⟨Sr, hkr, hpr'⟩ := hI.site ro oo hoo
+                  rw [hpro] at hpr'; injection hpr' with hpr'
+                  -- it is a root module of the project
+                  obtain ⟨m, cp⟩ := Sr
+                  have hlt := hkr.static.1
+                  simp only at hlt
+                  have hne := (wf.parentOk m hlt).1
+                  have hcp : cp = [] ∧ pathOf proj m = [r] := by
+                    simp only [sitePath] at hpr'
+                    cases hpm : pathOf proj m with
+                    | nil => exact absurd hpm hne
+                    | cons a as =>
+                      rw [hpm] at hpr'
+                      simp only [List.cons_append, List.cons.injEq] at hpr'
+                      obtain ⟨h1, h2⟩ := hpr'
+                      have h3 := List.append_eq_nil_iff.1 h2.symm
+                      exact ⟨h3.2, by rw [h1, h3.1]⟩
+                  obtain ⟨hcp, hpm⟩ := hcp
+                  subst hcp
+                  have hroot : modIdx proj [r] = some m := by rw [← hpm]; exact modIdx_of_path wf.modNodup hlt
+                  rcases hden r rest m rfl hroot with ⟨h0, _⟩ | ⟨_, hjr⟩
+                  · exact absurd h0 hrest
+                  · have hden2 := expand_soundI wf ciu hI hn (finalEnv s) rfl hmro hmem rest ro true (m, []) oo v p2 hoo
+                      (by rw [hpro]; simp [sitePath, hpm]) hkr hjr hx2
+                    exact registered_identI wf ciu hI hden2 hof2
+      | external => simp [hfo] at hr
+      | lookupError => simp [hfo] at hr
+      | indexError => simp [hfo] at hr
+      | crash => simp [hfo] at hr
 
 end Imports
